@@ -36,6 +36,7 @@ import (
 
 type Reader struct {
 	reader    io.Reader
+	adapter   contractReader
 	buffer    []byte
 	bytesRead uint64
 	config    *configuration.Configuration
@@ -53,9 +54,47 @@ func (_this *Reader) Init(config *configuration.Configuration) {
 }
 
 func (_this *Reader) SetReader(reader io.Reader) {
-	_this.reader = reader
+	_this.adapter = contractReader{reader: reader}
+	_this.reader = &_this.adapter
 	// A new reader is a new document
 	_this.bytesRead = 0
+}
+
+// contractReader shields the decoder, and the ULEB128 / compact-time /
+// compact-float sub-decoders that call Read directly, from the two parts of the
+// io.Reader contract they do not handle themselves:
+//   - a Read that returns (0, nil): it is retried (a bounded number of times)
+//     instead of being taken for a byte;
+//   - a Read that returns data together with an error (typically the last
+//     bytes together with io.EOF): the data is delivered first and the error
+//     on the following call, so neither is lost.
+type contractReader struct {
+	reader io.Reader
+	err    error
+}
+
+const maxConsecutiveEmptyReads = 100
+
+func (_this *contractReader) Read(p []byte) (n int, err error) {
+	if len(p) == 0 {
+		return 0, nil
+	}
+	if _this.err != nil {
+		err = _this.err
+		_this.err = nil
+		return 0, err
+	}
+	for i := 0; i < maxConsecutiveEmptyReads; i++ {
+		n, err = _this.reader.Read(p)
+		if n > 0 {
+			_this.err = err
+			return n, nil
+		}
+		if err != nil {
+			return 0, err
+		}
+	}
+	return 0, io.ErrNoProgress
 }
 
 func (_this *Reader) ReadUint8() uint8 {
